@@ -257,6 +257,304 @@ def check_iosim(prop, tier, seed):
 
 
 # ---------------------------------------------------------------------------------------------
+# treapsim (C03, C16)
+
+MASK = 0xFFFFFFFFFFFFFFFF
+
+
+def splitmix64(x):
+    z = (x + 0x9E3779B97F4A7C15) & MASK
+    z = ((z ^ (z >> 30)) * 0xBF58476D1CE4E5B9) & MASK
+    z = ((z ^ (z >> 27)) * 0x94D049BB133111EB) & MASK
+    return z ^ (z >> 31)
+
+
+class PyRng:
+    """splitmix64 stream; the orchestrator's only source of choices, seeded from VERIF_SEED."""
+
+    def __init__(self, seed):
+        self.s = seed & MASK
+
+    def next(self):
+        self.s = (self.s + 0x9E3779B97F4A7C15) & MASK
+        return splitmix64(self.s)
+
+    def below(self, n):
+        return self.next() % n
+
+    def pick(self, xs):
+        return xs[self.below(len(xs))]
+
+
+TREAP_TIERS = {
+    "C03": {"quick": 300_000, "thorough": 10_000_000},
+    # (controlled-priority runs watched for heap order, real-priority process runs, of which at n = 10^6)
+    "C16": {"quick": (100_000, 60, 0), "thorough": (2_000_000, 600, 12)},
+}
+
+N_HISTORIES = 10
+
+
+def treap_ctl(seed, runs, tag):
+    binary, bs = cargo_build("treapsim", "sim-dbg")
+    out = os.path.join(WORK, "treap-ctl-%s.json" % tag)
+    if os.path.exists(out):
+        os.remove(out)
+    env = dict(ENV)
+    env["VERIF_WORKERS"] = str(workers())
+    rc, so, se = run([binary, "ctl", "--runs", str(runs), "--seed", str(seed), "--out", out, "--replay-dir", REPLAYS], env=env, timeout=6 * 3600)
+    if rc != 0 or not os.path.exists(out):
+        sys.stderr.write(so[-2000:] + se[-4000:])
+        raise HarnessError("treapsim ctl exited with status %s" % rc)
+    return json.load(open(out)), bs
+
+
+def treap_replay(path):
+    rec = json.load(open(path))
+    engine = (rec.get("record") or rec).get("engine", "")
+    profile = "sim-rel" if engine == "treapsim-real" else "sim-dbg"
+    binary, _ = cargo_build("treapsim", profile)
+    rc, out, err = run([binary, "replay", path], timeout=3600)
+    if rc < 0 or rc > 2:
+        # the process died (stack exhaustion in the recursive split/merge of a degenerate tree)
+        cls = (rec.get("violation") or {}).get("class", "treap/crash//")
+        return 1, out + err + "\nREPLAY-VIOLATION class=%s detail=process terminated abnormally (status %s)\n" % (cls, rc)
+    return rc, out + err
+
+
+def ctl_coverage(c):
+    return {
+        "controlled_priority_runs": c["runs"],
+        "steps": c["steps"],
+        "invariant_walks": c["invariant_walks"],
+        "hook_active": c["hook_active"],
+        "runs_by_priority_strategy": c["runs_by_priority_strategy"],
+        "runs_by_flavour": c["runs_by_flavour"],
+        "probes": c["probes"],
+        "probes_at_zero": c["probes_at_zero"],
+        "distinct_states": c["distinct_states"],
+        "distinct_states_capped": c["distinct_states_capped"],
+        "shapes_reached_vs_catalan": c["shapes_reached"],
+        "max_height_seen": c["max_height_seen"],
+    }
+
+
+def check_c03(tier, seed):
+    ensure_dirs()
+    t0 = time.time()
+    runs = TREAP_TIERS["C03"][tier]
+    c, build_s = treap_ctl(seed, runs, "C03-" + tier)
+    mine = [v for v in c["violations"] if v["property"] == "C03"]
+    other = [v for v in c["violations"] if v["property"] != "C03"]
+    for v in other:
+        log("note: a %s violation was seen (class %s); it is reported by ./check %s" % (v["property"], v["class"], v["property"]))
+        try:
+            os.remove(v["replay"])
+        except OSError:
+            pass
+    real = settle("C03", mine, treap_replay)
+    wall = time.time() - t0
+    cov = ctl_coverage(c)
+    cov.update({
+        "evaluations": c["runs"],
+        "distinct_nontrivial": c["distinct_states"],
+        "exhaustive": False,
+        "rule": (
+            "A run = (priority trace answering every priority draw of the library through the verif hook, drawn from one of 9 strategies "
+            "incl. ties everywhere, all equal, spines, zigzag; operation history of <= 60 operations over a pool of <= 4 treaps, generated against the model state). "
+            "After every step a non-mutating walk reconstructs every live treap's sequence from the public node fields (composing pending maps top-down) and checks "
+            "every stored subtree aggregate. distinct_nontrivial = number of distinct digests of (tree shape, set of nodes holding a non-identity pending map) observed after steps"
+            + (" (capped: the set stopped growing at the cap, so this is a lower bound)" if c["distinct_states_capped"] else "") + "."
+        ),
+        "simulated_runs": c["runs"],
+        "runs_per_hour": int(c["runs"] / max(c["wall_s"], 1e-9) * 3600),
+        "seeds": "run i uses seed splitmix64((VERIF_SEED ^ 0xC03) ^ i*phi); VERIF_SEED=%d" % seed,
+        "simulated_time": "not applicable: no clock anywhere in the mechanism; simulated steps (treap operations, invariant walks) are counted instead",
+        "faults_fired": "not applicable to this property: the injected nondeterminism is the priority assignment (see runs_by_priority_strategy) and the interleaving of operations on several live treaps",
+        "real_vs_stub": {"real": ["rlib_treap::Treap", "rlib_treap::TreapNode (merge, split_at, split_by, push, update, collect_into)"], "stub": ["the item type stored in the treap (affine lazy map + order-sensitive aggregate)", "the priority source (verif hook; manual_insert uses the public priority field without any hook)"]},
+        "samples": c["samples"],
+        "build_s": round(build_s, 2),
+    })
+    assumptions = [
+        "lawful items: the stub item implements update/push in the pattern of the library's README (modify applies to the node and its aggregate and records the map for the children)",
+        "arithmetic modulo 2^61-1; a wrong sequence or aggregate escapes only on a hash collision",
+        "sampling of histories and priority assignments, not proof",
+    ]
+    write_evidence("C03", tier, seed, "exploration", cov, assumptions, wall, real)
+    log("C03 %s: %d histories, %d steps, %d distinct states, %d violating classes (%d not known) in %.1fs" % (tier, c["runs"], c["steps"], c["distinct_states"], len(mine), real, wall))
+    return 1 if real else 0
+
+
+def real_matrix(seed, count, big):
+    """The (history, n, foreign-draw mode, stride, seed) matrix of real-priority runs."""
+    rng = PyRng(seed ^ 0xC16)
+    cfgs = []
+    per_history = max(1, count // N_HISTORIES)
+    for h in range(N_HISTORIES):
+        for k in range(per_history):
+            slot = k % 6
+            if slot == 0:
+                n, mode, stride = 1000, 0, 1
+            elif slot == 1:
+                n, mode, stride = 10_000, 1, rng.pick([2, 3, 4, 8])
+            elif slot == 2:
+                n, mode, stride = 100_000, 0, 1
+            elif slot == 3:
+                n, mode, stride = 100_000, 2, rng.pick([4, 16, 64])
+            elif slot == 4:
+                n, mode, stride = 10_000, 3, 2
+            else:
+                n, mode, stride = rng.pick([3000, 30_000, 100_000]), 1, rng.pick([5, 7, 16, 32, 100, 256, 1024])
+            if k >= 6:
+                n = rng.pick([500, 2000, 5000, 20_000, 50_000, 100_000, 200_000])
+            cfgs.append({"history": h, "n": n, "mode": mode, "stride": stride, "seed": rng.next() % (1 << 48)})
+    for b in range(big):
+        cfgs.append({"history": b % N_HISTORIES, "n": 1_000_000, "mode": [0, 1, 2][b % 3], "stride": rng.pick([2, 3, 8, 64]), "seed": rng.next() % (1 << 48)})
+    return cfgs
+
+
+def real_run(binary, cfg):
+    cmd = [binary, "real", "--history", str(cfg["history"]), "--n", str(cfg["n"]), "--mode", str(cfg["mode"]), "--stride", str(cfg["stride"]), "--seed", str(cfg["seed"])]
+    try:
+        rc, so, se = run(cmd, timeout=1800)
+    except subprocess.TimeoutExpired:
+        return {"crash": "timeout", "cfg": cfg}
+    if rc != 0:
+        return {"crash": "status %s: %s" % (rc, se[-300:]), "cfg": cfg}
+    try:
+        j = json.loads(so)
+    except ValueError:
+        return {"crash": "unparsable output", "cfg": cfg}
+    j["cfg"] = cfg
+    return j
+
+
+def real_record(cfg, violation):
+    return {
+        "property": "C16",
+        "violation": violation,
+        "record": {"engine": "treapsim-real", "history_index": cfg["history"], "n": cfg["n"], "foreign_mode_index": cfg["mode"], "stride": cfg["stride"], "seed": cfg["seed"]},
+    }
+
+
+def minimise_real(binary, cfg, cls):
+    """Shrinks n (and drops the foreign draws) while the same violation class persists; every
+    candidate is executed in a fresh process."""
+    best = dict(cfg)
+
+    def fails(c):
+        r = real_run(binary, c)
+        if "crash" in r:
+            return cls.startswith("treap/crash")
+        return bool(r.get("violation")) and r["violation"]["class"] == cls
+
+    if best["mode"] != 0:
+        c = dict(best, mode=0, stride=1)
+        if fails(c):
+            best = c
+    n = best["n"]
+    while n > 16:
+        c = dict(best, n=n // 2)
+        if fails(c):
+            best = c
+            n //= 2
+        else:
+            break
+    return best
+
+
+def check_c16(tier, seed):
+    from concurrent.futures import ThreadPoolExecutor
+
+    ensure_dirs()
+    t0 = time.time()
+    ctl_runs, real_count, big = TREAP_TIERS["C16"][tier]
+    c, build_s = treap_ctl(seed ^ 0x16, ctl_runs, "C16-" + tier)
+    found = [v for v in c["violations"] if v["property"] == "C16"]
+    for v in c["violations"]:
+        if v["property"] != "C16":
+            log("note: a %s violation was seen (class %s); it is reported by ./check %s" % (v["property"], v["class"], v["property"]))
+            try:
+                os.remove(v["replay"])
+            except OSError:
+                pass
+
+    binary, bs2 = cargo_build("treapsim", "sim-rel")
+    build_s += bs2
+    cfgs = real_matrix(seed, real_count, big)
+    t1 = time.time()
+    with ThreadPoolExecutor(max_workers=workers()) as ex:
+        results = list(ex.map(lambda cfg: real_run(binary, cfg), cfgs))
+    real_wall = time.time() - t1
+
+    seen_classes = set()
+    heights = []
+    foreign = 0
+    shape_digests = set()
+    config_keys = set()
+    by_history = {}
+    for r in results:
+        cfg = r["cfg"]
+        config_keys.add((cfg["history"], cfg["n"], cfg["mode"], cfg["stride"]))
+        if "crash" in r:
+            cls, detail = "treap/crash/history%d/" % cfg["history"], "real-priority run %r terminated abnormally: %s" % (cfg, r["crash"])
+        elif r.get("violation"):
+            cls, detail = r["violation"]["class"], r["violation"]["detail"]
+        else:
+            heights.append((r["final_n"], r["final_height"], round(r["bound"], 1)))
+            foreign += r["foreign_draws"]
+            shape_digests.add(r["shape_digest"])
+            by_history[r["history"]] = by_history.get(r["history"], 0) + 1
+            continue
+        if cls in seen_classes:
+            continue
+        seen_classes.add(cls)
+        small = minimise_real(binary, cfg, cls)
+        path = os.path.join(REPLAYS, "C16-real-%d-h%d-n%d.json" % (seed, small["history"], small["n"]))
+        with open(path, "w") as f:
+            json.dump(real_record(small, {"class": cls, "detail": detail}), f, indent=1)
+        found.append({"class": cls, "detail": detail, "replay": path})
+
+    real = settle("C16", found, treap_replay)
+    wall = time.time() - t0
+    worst = sorted(heights, key=lambda t: t[1] / t[2], reverse=True)[:5]
+    cov = {
+        "evaluations": len(results) + c["runs"],
+        "distinct_nontrivial": len(shape_digests) + c["distinct_states"],
+        "exhaustive": False,
+        "rule": (
+            "Two layers. (1) real-priority process runs: one (history, n, foreign-draw interleaving, stride, seed) per process, priorities drawn by the library's own generator; "
+            "the simulator decides the history (10 adversarial orders) and how many foreign nodes are created between two own node creations on the shared generator; height and heap order are "
+            "measured by an iterative walk at every doubling of n and at the end against 5*log2(n+1)+20. (2) controlled-priority histories (same engine as C03) watched for heap order "
+            "(direction-agnostic) after every step under ties/spines. distinct_nontrivial = distinct final-tree digests of layer 1 + distinct (shape, pending-set) states of layer 2."
+        ),
+        "real_priority_process_runs": len(results),
+        "real_priority_distinct_configurations": len(config_keys),
+        "real_priority_runs_by_history": by_history,
+        "real_priority_foreign_draws_injected": foreign,
+        "real_priority_largest_n": max([h[0] for h in heights] or [0]),
+        "worst_height_vs_bound": [{"n": n, "height": h, "bound": b} for (n, h, b) in worst],
+        "real_priority_runs_per_hour": int(len(results) / max(real_wall, 1e-9) * 3600),
+        "controlled_layer": ctl_coverage(c),
+        "simulated_runs": len(results) + c["runs"],
+        "seeds": "matrix drawn from splitmix64 stream seeded with VERIF_SEED ^ 0xC16; VERIF_SEED=%d; controlled layer uses VERIF_SEED ^ 0x16" % seed,
+        "simulated_time": "not applicable: no clock in the mechanism; operations and node creations are counted instead",
+        "faults_fired": {"foreign_draws_on_shared_generator": foreign, "priority_ties_on_edges_controlled_layer": c["probes"].get("priority_tie_on_an_edge", 0)},
+        "real_vs_stub": {"real": ["rlib_treap::Treap/TreapNode", "rlib_rand::Rng (the process-wide priority generator)", "TreapNode::new (foreign draws go through the public constructor)"], "stub": ["the item type (sized key, no lazy state) in layer 1; as for C03 in layer 2"]},
+        "samples": [{k: r[k] for k in ("history", "n", "foreign_mode", "stride", "seed", "final_height", "bound", "checkpoints") if k in r} for r in results[:3] if "crash" not in r],
+        "build_s": round(build_s, 2),
+    }
+    assumptions = [
+        "the height clause is a statistical statement about the library's concrete generator, checked on sampled (history, interleaving) pairs; strides are capped at 1024",
+        "heap order is accepted in either direction as long as it is consistent over the whole tree",
+        "sampling, not proof",
+    ]
+    write_evidence("C16", tier, seed, "exploration", cov, assumptions, wall, real)
+    log("C16 %s: %d real-priority process runs (largest n %d), %d controlled histories, %d violating classes (%d not known) in %.1fs" % (tier, len(results), cov["real_priority_largest_n"], c["runs"], len(found), real, wall))
+    return 1 if real else 0
+
+
+# ---------------------------------------------------------------------------------------------
 
 def cmd_replay(path):
     if not os.path.exists(path):
@@ -265,6 +563,8 @@ def cmd_replay(path):
     engine = (rec.get("record") or rec).get("engine", "")
     if engine.startswith("iosim"):
         rc, out = iosim_replay(path)
+    elif engine.startswith("treapsim"):
+        rc, out = treap_replay(path)
     else:
         raise HarnessError("unknown engine in replay file: %r" % engine)
     sys.stdout.write(out)
@@ -276,12 +576,15 @@ def cmd_replay(path):
 CHECKS = {
     "C08": lambda tier, seed: check_iosim("C08", tier, seed),
     "C09": lambda tier, seed: check_iosim("C09", tier, seed),
+    "C03": check_c03,
+    "C16": check_c16,
 }
 
 
 def cmd_setup():
     for profile in ("sim-rel", "sim-dbg"):
         cargo_build("iosim", profile)
+        cargo_build("treapsim", profile)
     log("setup: simulators built")
     return 0
 
